@@ -14,5 +14,7 @@ func FuzzPropVerifyDifferential(f *testing.F) { rt.FuzzProp(f, rt.Capture(TestVe
 func FuzzPropVerifyASN1Differential(f *testing.F) {
 	rt.FuzzProp(f, rt.Capture(TestVerifyASN1Differential))
 }
-func FuzzPropSignaturesInterop(f *testing.F) { rt.FuzzProp(f, rt.Capture(TestSignaturesInterop)) }
-func FuzzPropWrapAround(f *testing.F)        { rt.FuzzProp(f, rt.Capture(TestWrapAroundSignatures)) }
+func FuzzPropSignaturesInterop(f *testing.F)    { rt.FuzzProp(f, rt.Capture(TestSignaturesInterop)) }
+func FuzzPropWrapAround(f *testing.F)           { rt.FuzzProp(f, rt.Capture(TestWrapAroundSignatures)) }
+func FuzzPropChosenNonceForgeries(f *testing.F) { rt.FuzzProp(f, rt.Capture(TestChosenNonceForgeries)) }
+func FuzzPropVerifyAfterVerify(f *testing.F)    { rt.FuzzProp(f, rt.Capture(TestVerifyAfterVerify)) }
